@@ -48,7 +48,7 @@ def processLine (acc : RAcc) (line : String) : RAcc × List String :=
     ({ acc with d := d', mismatches := acc.mismatches + out.length }, out)
   else if line.startsWith "seq " then
     ({ acc with seq := (words line).getD 1 "?", seqs := acc.seqs + 1,
-                d := { acc.d with worlds := [some ⟨acc.d.ids, (acc.d.ncols.map (fun n => emptyStorage n))⟩], cur := 0, hs := [] } }, [])
+                d := { acc.d with worlds := [some ⟨acc.d.ids, (acc.d.ncols.map (fun n => emptyStorage n))⟩], cur := 0, hs := [], leaked := 0, zleaked := 0 } }, [])
   else if line.isEmpty then (acc, [])
   else
     match line.splitOn " => " with
